@@ -144,7 +144,14 @@ def build_circuit(spec: dict, roles: Roles | None = None) -> tuple[Circuit, Role
     built: list = []
     in_layers = {}
     cplx = bool(spec.get("complex"))
+    n_sums = 0
     for ls in spec["layers"]:
+        if ls.get("t") == "sum" and ls.get("w") in ("alt", "alt2"):
+            # sibling sum layers with structurally different weight graphs: softmax(tensor) and a plain tensor alternate
+            first = "softmax" if ls["w"] == "alt" else "dense"
+            second = "dense" if ls["w"] == "alt" else "softmax"
+            ls = dict(ls, w=first if n_sums % 2 == 0 else second)
+            n_sums += 1
         sl = build_layer(ls, built, roles, cplx)
         built.append(sl)
         if "in" in ls:
